@@ -311,7 +311,9 @@ def bounded(tier, seed):
                 "[floor(1180591620717411303425), ceiling(1180591620717411303425), round(1180591620717411303425), floor(2.5), ceiling(-2.5), round(2.567, 2)]",
                 "[sum([1180591620717411303424, 0.5]), 1180591620717411303424 * 1.0, 1180591620717411303424 + 0.0, 1180591620717411303424 / 1.0, int(2.0), int('12')]",
                 "[sqrt(16), pow(2, 0.5), pow(2, 70), abs(-2.5), min([1, 2.0]), max([1, 2.0]), sum([1, 2]), sum([1, 2.0])]",
-                "object(<<<'b' => 1, 'a' => 2>>>)", "map(<*b = 1, a = 2*>)", "list(<<3, 1, 2>>)", "set([3, 1, 3])"]:
+                "object(<<<'b' => 1, 'a' => 2>>>)", "map(<*b = 1, a = 2*>)", "list(<<3, 1, 2>>)", "set([3, 1, 3])",
+                # zeros made by arithmetic and rounding (one zero: its text evaluates to itself)
+                "[0.0 * -1, round(-0.4), 0 * -2.5, -0.0, 0.0 - 0.0, ceiling(-0.5), sum([0.0, 0.0 * -1]), abs(0.0 * -1), min([0.0, 0.0 * -1])]"]:
         ev += 1
         try:
             val = I.interpret(src, "-")
